@@ -114,7 +114,7 @@ impl Drop for Rec {
 static NAME_A: &str = "requests.total";
 static NAME_B: &str = "";
 static DESC_A: &str = "number of requests";
-static DESC_B: &str = "d";
+static DESC_B: &str = ""; // the empty description (together with unit None: "nothing to say" must still be forwarded)
 static KEY: Key = Key::from_static_name("requests.total");
 static META: Metadata<'static> = Metadata::new("target", Level::INFO, Some("module"));
 
@@ -501,9 +501,12 @@ mod rg {
         }
     }
 
+    /// `std::hint::spin_loop()` is a CPU hint (an unsupported intrinsic for Kani): a no-op for the logic
+    pub fn spin_loop_stub() {}
     #[kani::proof]
     #[kani::unwind(6)]
     #[kani::stub(core::sync::atomic::Atomic::<usize>::compare_exchange, compare_exchange_stub)]
+    #[kani::stub(core::hint::spin_loop, spin_loop_stub)]
     fn c20_into_inner_retry_rg() {
         let n: usize = kani::any();
         kani::assume(n <= 3);
